@@ -188,12 +188,9 @@ def driver_path():
     return os.path.join(LEAN, ".lake", "build", "bin", "bitamodel")
 
 
-def ask_driver(requests):
-    """Pipe request lines to the Lean driver, return answer lines."""
-    if not requests:
-        return []
+def _ask_driver_one(requests):
     p = subprocess.run([driver_path()], input="\n".join(requests) + "\n", stdout=subprocess.PIPE,
-                       stderr=subprocess.PIPE, text=True, timeout=3600)
+                       stderr=subprocess.PIPE, text=True, timeout=7200)
     if p.returncode != 0:
         raise Failure("model driver crashed", p.stderr[-2000:])
     ans = p.stdout.split("\n")
@@ -202,6 +199,24 @@ def ask_driver(requests):
     if len(ans) != len(requests):
         raise Failure("model driver answered %d of %d requests" % (len(ans), len(requests)), p.stderr[-2000:])
     return ans
+
+
+def ask_driver(requests, jobs=None):
+    """Pipe request lines to the Lean driver (several processes in parallel), return answer lines."""
+    if not requests:
+        return []
+    jobs = jobs or min(14, max(1, len(requests) // 500))
+    if jobs == 1:
+        return _ask_driver_one(requests)
+    # interleave so that expensive requests (often generated together) spread over the workers
+    parts = [requests[i::jobs] for i in range(jobs)]
+    from concurrent.futures import ThreadPoolExecutor
+    with ThreadPoolExecutor(max_workers=jobs) as ex:
+        results = list(ex.map(_ask_driver_one, parts))
+    out = [None] * len(requests)
+    for i, r in enumerate(results):
+        out[i::jobs] = r
+    return out
 
 
 def run_suite(binary, args, seed, timeout=3600, extra_env=None):
